@@ -322,7 +322,7 @@ class PubSubModel:
             return
         W = net.wprobe.get(fr.round)
         if W is None:
-            self.anomalies.append(f"no writable probe for round {fr.round}")
+            self.anomalies.append(f"no writability decision for round {fr.round}")
             W = frozenset()
         for m in self.conns.values():
             if not m.alive:
